@@ -136,6 +136,15 @@ impl BodyChain {
         })
     }
 
+    /// does block `number` create a cell carrying `script` in that role, or spend one?
+    pub(crate) fn touches_role(&self, number: u64, script: &packed::Script, is_lock: bool) -> bool {
+        let hit = |o: &packed::CellOutput| if is_lock { &o.lock() == script } else { o.type_().to_opt().as_ref() == Some(script) };
+        self.chain.bodies[number as usize].iter().any(|t| {
+            t.raw().outputs().into_iter().any(|o| hit(&o))
+                || t.raw().inputs().into_iter().any(|i| Provider(&self.all).cell(&i.previous_output()).map(|o| hit(&o)).unwrap_or(false))
+        })
+    }
+
     /// ground truth: live cells (block, tx index, output index, tx hash) of `script` in role lock / type,
     /// counting only blocks after `from` as creators
     pub(crate) fn live_cells(&self, script: &packed::Script, is_lock: bool, from: u64, upto: u64) -> Vec<(u64, u32, u32, packed::Byte32)> {
